@@ -138,7 +138,11 @@ func main() {
 	handle := func(sc *scen.Scenario, o *scen.Outcome) (stop bool) {
 		if o.Harness != "" {
 			if len(res.Harness) < 3 {
-				res.Harness = append(res.Harness, fmt.Sprintf("scenario=%s variant=%d seed=%d: %s", o.Scenario, o.Variant, o.Seed, o.Harness))
+				os.MkdirAll(*replayDir, 0o755)
+				path := fmt.Sprintf("%s/harness-%s-%d-w%d-%d.json", *replayDir, *prop, *seed, *worker, len(res.Harness))
+				js, _ := json.MarshalIndent(Replay{Property: o.Prop, Scenario: o.Scenario, Variant: o.Variant, Seed: o.Seed, Thorough: thorough, Tape: o.Tape, Signature: "harness", Message: o.Harness}, "", " ")
+				os.WriteFile(path, js, 0o644)
+				res.Harness = append(res.Harness, fmt.Sprintf("scenario=%s variant=%d seed=%d tape=%s: %s", o.Scenario, o.Variant, o.Seed, path, o.Harness))
 			}
 			return true
 		}
